@@ -389,6 +389,21 @@ static void c08_run_case(const LabCase& lc, Rng& rng, bool thorough, Stats& st, 
     else if (res.rfind("ok", 0) != 0) { std::string what = res.substr(0, res.find(' ')); report("roundtrip-mismatch", "roundtrip|" + what, "chunk=" + std::to_string(chunk) + " " + res, rp); }
     if (st.samples.size() < 3) { J s = J::obj(); s.set("case", lc.desc); s.set("chunk", (int64_t) chunk); s.set("junk", j1); s.set("pad2", (int64_t) pad2); s.set("result", res); st.sample(s); }
   }
+  // (1b) sweep of rule counts: whatever the number of relocation entries, the saved image must load back
+  if (only_kind.empty() || only_kind == "sweep") {
+    int base = only_kind.empty() ? (int) rng.range(1, 300) : (int) ra, span = only_kind.empty() ? (thorough ? 24 : 4) : 1;
+    for (int nr = base; nr < base + span; nr++) {
+      CompileSpec cs; std::string src; for (int k = 0; k < nr; k++) src += "rule s" + std::to_string(k) + " { strings: $a = \"sw_" + std::to_string(k) + "_x\" condition: $a }\n"; cs.sources.push_back({"", src});
+      std::string res;
+      IsoResult r = sim_isolate([&] { CompileResult cr = compile_rules(cs); if (!cr.rules) { iso_emit("harness\n"); return; } std::string img; int rc; save_rules(cr.rules, img, &rc); YR_RULES* l = NULL; int lrc = rc == ERROR_SUCCESS ? load_rules(img, &l, 0) : -1; yr_rules_destroy(cr.rules); if (l) yr_rules_destroy(l);
+        iso_emit(rc != ERROR_SUCCESS ? std::string("save-failed:") + yr_error_name(rc) + "\n" : lrc != ERROR_SUCCESS ? std::string("own-image-rejected:") + yr_error_name(lrc) + "\n" : "ok\n"); }, 60);
+      st.runs++; st.c["sweep_rule_counts"]++; Hash64 h; h.add("sweep"); h.addu(nr); st.hash(h.h);
+      res = r.out.substr(0, r.out.find('\n'));
+      J rp = c08_replay(lc, bufs, "sweep", nr, 0, 0);
+      if (r.kind != 0) report("crash", "sweep|" + sim_crash_signature(r), r.err.substr(0, 2000), rp);
+      else if (res != "ok" && res != "harness") report("roundtrip-mismatch", "sweep|" + res.substr(0, res.find(':')), std::to_string(nr) + " rules: " + res, rp);
+    }
+  }
   // (2) write fault at item n: the original must stay usable
   if (only_kind.empty() || only_kind == "writefault") {
     // count the writes of a fault-free save
